@@ -148,17 +148,26 @@ impl<'input> Scalar<'input> {
     /// Returns the parsed [`Scalar`].
     #[must_use]
     pub fn parse_from_cow(v: Cow<'input, str>) -> Self {
+        // The digits after a `0x`, `0o` or `+` prefix may not carry a sign of their own
+        // (`from_str_radix` would accept one).
+        let unsigned = |number: &str| !number.starts_with(['+', '-']);
         if let Some(number) = v.strip_prefix("0x") {
-            if let Ok(i) = i64::from_str_radix(number, 16) {
-                return Self::Integer(i);
+            if unsigned(number) {
+                if let Ok(i) = i64::from_str_radix(number, 16) {
+                    return Self::Integer(i);
+                }
             }
         } else if let Some(number) = v.strip_prefix("0o") {
-            if let Ok(i) = i64::from_str_radix(number, 8) {
-                return Self::Integer(i);
+            if unsigned(number) {
+                if let Ok(i) = i64::from_str_radix(number, 8) {
+                    return Self::Integer(i);
+                }
             }
         } else if let Some(number) = v.strip_prefix('+') {
-            if let Ok(i) = number.parse::<i64>() {
-                return Self::Integer(i);
+            if unsigned(number) {
+                if let Ok(i) = number.parse::<i64>() {
+                    return Self::Integer(i);
+                }
             }
         }
         match &*v {
